@@ -421,7 +421,7 @@ def pat_fields(pat):
 def r9(ctx, rep):
     # a sort of a joined / appended sub-pipeline that leaks into the outer pipeline is lowered to column ids of the pulled-out table
     import C03
-    rep.borrowed(C03.r4, ctx, "C16.R9", "sort columns attached to outer transforms are columns of the outer pipeline", only=r"join-append")
+    rep.borrowed(C03.r4, ctx, "C16.R9", "sort columns attached to transforms are columns that exist at that point of the pipeline (not those of a joined sub-pipeline, not those before an aggregate)", only=r"join-append|aggregate-resets")
 
 
 def r10(ctx, rep):
